@@ -191,6 +191,7 @@ def flatten_cli(run, obs_path, out_name="events.ndjson"):
             if rec.get("panic"):
                 st0 = case["cmds"][0]
                 ev = {"case": {"pre": pre, "cmd": st0["cmd"], "now": st0["nowv"], "cfg": st0["cfgv"], "args": st0["args"],
+                               "pred": st0.get("pred", {"st": "unspec", "text": ""}), "predpre": st0.get("predpre", ""),
                                "step": 0, "nofile": fname not in case["files"], "hist": [s["args"] for s in case["cmds"]], "orig": case},
                       "obs": {}, "panic": rec["panic"], "site": rec.get("site", "")}
                 g.write(json.dumps(ev, ensure_ascii=False) + "\n")
@@ -201,6 +202,7 @@ def flatten_cli(run, obs_path, out_name="events.ndjson"):
                 post = st["files"].get(fname, "")
                 parsed = st.get("parsed", {}).get(fname, {"ok": False, "records": []})
                 ev = {"case": {"pre": pre, "cmd": cs["cmd"], "now": cs["nowv"], "cfg": cs["cfgv"], "args": cs["args"],
+                               "pred": cs.get("pred", {"st": "unspec", "text": ""}), "predpre": cs.get("predpre", ""),
                                "step": i, "nofile": fname not in case["files"] and i == 0,
                                "orig": case},
                       "obs": {"post": post, "code": st["code"], "err": st["err"][:300], "touched": fname in st.get("touched", []),
@@ -214,25 +216,39 @@ def flatten_cli(run, obs_path, out_name="events.ndjson"):
     return out
 
 
-def cli_family(run, rules, modes, rule_text, flagged=None):
+def cli_family(run, rules, modes, rule_text, flagged=None, full_model=False):
     flagged = flagged or []
+    cfg = "MC_Cli" if full_model else "MC_CliLite"
     for mode in modes:
         if mode == "long":
             # random walks through the command model (TLC simulation mode): histories of 12 commands
             n = 200 if run.tier == "quick" else 3000
-            cases, r = run.mc("MC_Cli", {"KV_MODE": mode}, out_name="cases-%s.ndjson" % mode, workers=1,
+            cases, r = run.mc("MC_Cli", {"KV_MODE": mode}, out_name="cases-%s.ndjson" % mode, workers=1, cfg="MC_CliLite",
                               simulate="num=%d" % n, extra=["-depth", "13", "-seed", str(run.seed)])
         else:
-            cases, r = run.mc("MC_Cli", {"KV_MODE": mode}, out_name="cases-%s.ndjson" % mode)
+            # the refinement / frame / style action property of the text-level model is checked on the pair
+            # histories in the quick tier and on everything in the thorough tier
+            use = cfg if (mode != "single" or run.tier == "thorough") else "MC_CliLite"
+            cases, r = run.mc("MC_Cli", {"KV_MODE": mode}, out_name="cases-%s.ndjson" % mode, cfg=use)
         obs = run.drive(cases, obs_name="obs-%s.ndjson" % mode)
         events = flatten_cli(run, obs, "events-%s.ndjson" % mode)
-        flagged += run.judge("Trace_Cli", events, env={"KV_RULES": rules}, chunk=4000)
+        got = run.judge("Trace_Cli", events, env={"KV_RULES": rules + ",X."}, chunk=4000)
+        # X.* rules are the drift metric of the tight text-level model: recorded, never a verdict
+        for ev, rl in got:
+            real = [x for x in rl if not x.startswith("X.")]
+            if "X.Predicted" in rl:
+                run.extra["divergences_from_text_model"] = run.extra.get("divergences_from_text_model", 0) + 1
+                run.extra.setdefault("divergence_sample", {"args": ev["case"].get("args"), "pre": ev["case"].get("pre", "")[:300],
+                                                           "predicted": ev["case"].get("pred"), "observed": ev["obs"].get("post", "")[:300]})
+            if real:
+                flagged.append((ev, real))
+    run.extra.setdefault("divergences_from_text_model", 0)
     return vlib.finish(run, flagged, rule_text=rule_text)
 
 
 @check("C03", "Trace_Cli")
 def c03(run):
-    return cli_family(run, "C03", ["single", "pairs"], "seed files x every mutating command x parameters (single steps) and command pairs; "
+    return cli_family(run, "C03", ["single", "pairs"], full_model=True, rule_text="seed files x every mutating command x parameters (single steps) and command pairs; "
         "every executed step judged by TLC against the frame predicates of KReconcile")
 
 
@@ -408,6 +424,19 @@ def c07(run):
                     sched.append({"kind": "parsched", "text": c["text"], "n": nn, "natural": 3})
         for c in sched:
             f.write(json.dumps(c, ensure_ascii=False) + "\n")
+        # long documents with several faults (concatenations of generated documents and mutants): error
+        # order, line numbers and renumbering across many chunks
+        import random
+        rnd = random.Random(run.seed)
+        pool = [json.loads(l) for l in open(cases2, encoding="utf-8")]
+        good = [c["text"] for c in pool if c["claim"] == "Conforming" and "\r" not in c["text"]]
+        bad = [c["text"] for c in pool if c["claim"] == "Violating" and "\r" not in c["text"]]
+        for i in range(150 if run.tier == "quick" else 3000):
+            parts = [rnd.choice(good).strip("\n") for _ in range(rnd.randrange(8, 15))]
+            for _ in range(rnd.randrange(2, 4)):
+                parts[rnd.randrange(len(parts))] = rnd.choice(bad).strip("\n")
+            text = "\n\n".join(parts) + "\n"
+            f.write(json.dumps({"kind": "parse", "text": text, "workers": list(range(2, 19))}, ensure_ascii=False) + "\n")
         # one heavy case: every arrival order for 6 workers (720) on a multi-record document
         if run.tier == "thorough":
             for c in sched[:40]:
